@@ -162,6 +162,7 @@ func main() {
 	c := vlib.Init("C04")
 	defer c.Finish()
 	c.Family("hist", []string{"From Model Require Import C04_SyncFailure."}, "hist_case_ok", 250)
+	c.Family("both", []string{"From Coq Require Import ZArith.", "From Model Require Import C04_SyncFailure Compose_C04_C01."}, "both_case_ok", 250)
 
 	if c.Replay != "" {
 		var h Hist
@@ -264,7 +265,12 @@ func main() {
 			}
 			groups[g] = append(groups[g], vlib.Failure{Signature: signature(f.name, h2), Desc: f.desc, Replay: h2})
 		}
-		c.Case("hist", coqCase(h, out), h)
+		if h.Fam == "both" {
+			c.Case("both", coqBoth(h, out), h)
+			c.Nontrivial(histKey(h))
+		} else {
+			c.Case("hist", coqCase(h, out), h)
+		}
 		if i%997 == 0 {
 			c.Sample(map[string]interface{}{"history": h, "observed": out.Obs})
 		}
@@ -482,4 +488,25 @@ func causeOf(class string) string {
 		return "hook"
 	}
 	return "other"
+}
+
+// coqBoth: the same observation in the form both models are checked against
+func coqBoth(h *Hist, out Outcome) string {
+	o := out.Obs[0]
+	var reqs []int
+	for _, e := range o.Log {
+		if e.Rsrc > 0 && e.F == "ok" && e.NoPath == (h.Kind == "legacy") {
+			reqs = append(reqs, e.Rsrc)
+		}
+	}
+	segdl := "(-1)%Z"
+	if h.Cfg.Seg > 0 {
+		segdl = fmt.Sprintf("%d%%Z", h.Cfg.Seg)
+	}
+	lat := o.Latest
+	if lat < 0 {
+		lat = 999
+	}
+	return fmt.Sprintf("(Build_both_case %s %s %s %s %s %s %s %s)", coqCase(h, out), vlib.CoqNat(chainLen), segdl,
+		vlib.CoqNat(h.Ops[0].Head), coqNatList(reqs), coqNatList(o.Hooks), coqNatList(o.Store), vlib.CoqNat(lat))
 }
